@@ -83,6 +83,11 @@ def only_read(prog, m, name, class_level=False):
             if not hit:
                 continue
             par = parents.get(n)
+            encl = par
+            while encl is not None and not isinstance(encl, (ast.FunctionDef, ast.AsyncFunctionDef, ast.Lambda)):
+                encl = parents.get(encl)
+            if isinstance(encl, ast.FunctionDef) and encl.name in ("__init_subclass__", "__set_name__", "__class_getitem__"):
+                continue                        # runs while classes are created (import time): the same on every run
             if isinstance(n.ctx, ast.Store):
                 if isinstance(par, (ast.Assign, ast.AnnAssign)) and parents.get(par) in (mod.tree,) and not class_level:
                     continue                    # the defining assignment itself
@@ -219,6 +224,13 @@ def scan_module(prog, m):
         if isinstance(v, ast.Call):
             f = v.func
             name = f.id if isinstance(f, ast.Name) else (f.attr if isinstance(f, ast.Attribute) else "")
+            if name in ("MappingProxyType", "frozenset", "tuple", "namedtuple", "NamedTuple"):
+                return False            # a read-only view / an immutable value
+            K0 = prog.resolve_class(m, f) if isinstance(f, (ast.Name, ast.Attribute)) else None
+            if K0 is not None and not prog.ext_bases(K0) and not any(
+                    isinstance(x, ast.Attribute) and isinstance(x.ctx, (ast.Store, ast.Del))
+                    for k in prog.mro(K0) for x in ast.walk(k.node)):
+                return False            # an instance of a package class that never assigns an attribute: stateless
             if name in ("list", "dict", "set", "deque", "defaultdict", "OrderedDict", "Counter", "bytearray"):
                 return True
             if name.lstrip("_")[:1].isupper() and name not in ("TypeVar", "NewType", "Union", "Optional"):
@@ -246,10 +258,9 @@ def scan_module(prog, m):
             out.append(("E4", n.lineno, "", f"module-level {tgt} = {ast.unparse(val)[:60]}",
                         f"module-level mutable object `{tgt}` is shared by every explainer/storage created in the process"))
     for n in ast.walk(m.tree):
-        if isinstance(n, (ast.Global, ast.Nonlocal)):
+        if isinstance(n, ast.Global):          # (`nonlocal` names live in one call of the enclosing function: not shared)
             counts["E4"] += 1
-            out.append(("E4", n.lineno, "", f"{'global' if isinstance(n, ast.Global) else 'nonlocal'} {', '.join(n.names)}",
-                        "global state written from a function"))
+            out.append(("E4", n.lineno, "", f"global {', '.join(n.names)}", "global state written from a function"))
         if isinstance(n, ast.ClassDef):
             for b in n.body:
                 if isinstance(b, (ast.Assign, ast.AnnAssign)):
